@@ -931,6 +931,11 @@ standardize() {
       result += "/" + components[i];
     }
   }
+  if (result.empty()) {
+    // Everything cancelled out (e.g. "a/.."); this refers to the current
+    // directory, which the empty string does not name.
+    result = ".";
+  }
 
   (*this) = result;
 }
